@@ -128,10 +128,11 @@ func (c *concretiser) renderCC(ds []directive, sp int) []string {
 			parts[i] = one(d, false, true)
 		}
 		return []string{strings.Join(parts, ", ")}
-	case 4: // one field line per directive
+	case 4: // one field line per directive, in any order
 		parts := make([]string, len(ds))
-		for i, d := range ds {
-			parts[i] = one(d, false, false)
+		rot := c.rnd.Intn(len(ds))
+		for i := range ds {
+			parts[i] = one(ds[(i+rot)%len(ds)], false, false)
 		}
 		return parts
 	case 5: // reversed order and unknown extensions mixed in
@@ -146,7 +147,9 @@ func (c *concretiser) renderCC(ds []directive, sp int) []string {
 		return []string{strings.Join(parts, ", ")}
 	case 6: // everything at once: two lines, mixed case, quotes, OWS
 		var a, b []string
-		for i, d := range ds {
+		rot := c.rnd.Intn(len(ds))
+		for i := range ds {
+			d := ds[(i+rot)%len(ds)]
 			s := one(d, true, d.has && d.name != "no-cache")
 			if i%2 == 0 {
 				a = append(a, s)
@@ -268,6 +271,18 @@ func selValue(field, class, sp int) string {
 }
 
 func httpDate(t time.Time) string { return t.UTC().Format(http.TimeFormat) }
+
+// httpDateF renders an HTTP-date in one of the three formats a recipient has to accept (RFC 9110 5.6.7).
+func httpDateF(t time.Time, f int) string {
+	switch f {
+	case 1:
+		return t.UTC().Format("Monday, 02-Jan-06 15:04:05 GMT")
+	case 2:
+		return t.UTC().Format(time.ANSIC)
+	default:
+		return httpDate(t)
+	}
+}
 
 // logT converts a bubble time to the logged integer time.
 func logT(epoch, t time.Time) int {
